@@ -31,6 +31,7 @@ JOBS = {
     "C01": [
         {"cmd": "c01-codec", "race": False, "batches": {"quick": 8, "thorough": 16}, "timeout": {"quick": 600, "thorough": 2400}},
         {"cmd": "c01-e2e", "race": False, "batches": {"quick": 2, "thorough": 4}, "timeout": {"quick": 600, "thorough": 2400}},
+        {"cmd": "c01-xe2e", "race": False, "batches": {"quick": 2, "thorough": 6}, "timeout": {"quick": 600, "thorough": 2400}},
     ],
     "C02": [
         {"cmd": "c02-engine", "race": True, "batches": {"quick": 2, "thorough": 6}, "timeout": {"quick": 600, "thorough": 2400}},
